@@ -47,3 +47,22 @@ Proof.
   intros name t e Hin. apply ordered_sound.
   pose proof wrappers_publish_scopes_first as H. rewrite forallb_forall in H. exact (H _ Hin).
 Qed.
+
+(** * The strict wrapper templates (strict-http, strict-gin, strict-echo, strict-fiber, strict-iris; strict alphabet) *)
+Definition is_visit (g : gtok) : bool := match g with GVisit => true | _ => false end.
+Definition is_invoke (g : gtok) : bool := match g with GInvoke => true | _ => false end.
+
+Theorem strict_wrappers_all_five_translated :
+  Nat.eqb (List.length strict_wrappers) 5 = true
+  /\ forallb (fun p => may is_visit (snd p) && may is_invoke (snd p)) strict_wrappers = true.
+Proof. vm_compute. split; reflexivity. Qed.
+
+Theorem strict_wrappers_guard_their_visits : forallb (fun p => strict_segments_ok (snd p)) strict_wrappers = true.
+Proof. vm_compute. reflexivity. Qed.
+
+Theorem every_strict_wrapper_guards_its_visits : forall name t e,
+  In (name, t) strict_wrappers -> visits_guarded (render t e) = true.
+Proof.
+  intros name t e Hin. apply strict_segments_sound.
+  pose proof strict_wrappers_guard_their_visits as H. rewrite forallb_forall in H. exact (H _ Hin).
+Qed.
